@@ -1767,7 +1767,7 @@ SURROGATE_FORMS = ["\ud83d", "\udc00", "\ud800", "\udfff", "?", "�", "", "\U00
 
 def run_text_and_encoding(chk, quick):
     rng = chk.rng
-    n_base = 70 if quick else 1500
+    n_base = 60 if quick else 1500
     n_edits = 9 if quick else 14
     # ---- (1) text edits
     cases, impl, lines = [], [], []
@@ -1872,7 +1872,7 @@ def run_text_and_encoding(chk, quick):
             chk.finding_reproduced(fid)
 
     # ---- (2) code points UTF-8 cannot encode, in keys and values of the signed part
-    n_sur = 60 if quick else 1200
+    n_sur = 45 if quick else 1200
     cases, impl, lines, want = [], [], [], []
     for _ in range(n_sur):
         p = gen_signed_play(rng)
